@@ -100,3 +100,10 @@ Fixpoint pieces_adjacent (cur : Z) (ps : list pd) : Prop :=
   | [] => True
   | p :: t => s0 p = cur /\ pieces_adjacent (cur + n_time p) t
   end.
+
+(* the consistency that concat demands of time-adjacent pieces *)
+Definition consistent (base : pd) (rest : list pd) : Prop :=
+  pieces_adjacent (s0 base + n_time base) rest /\
+  Forall (fun a => ndim a = ndim base /\ fsn base * fsd a = fsn a * fsd base /\
+                   chan a = chan base /\ meta a = meta base) rest.
+
